@@ -12,6 +12,7 @@ type the callers choose for the table bound `n`.  Named hypotheses that remain: 
 -/
 import PcProofs.CloseTablesGen
 import PcProofs.CloseTablesDrv
+import PcProofs.CloseTablesPhiC07
 import PcProofs.P2LoopEx
 
 namespace Pc.C17Closed
@@ -110,6 +111,11 @@ theorem realTablesC18_ok (l1raw kib : ℕ) (hk : 16 ≤ kib) (hk2 : kib ≤ 8192
     TablesOK (realTables (refSieve (realNT (genC18 l1raw kib) threads N).p) (genC18 l1raw kib) threads phiNeg wide N it) B :=
   Pc.Close.realTablesC18_ok l1raw kib hk hk2 threads phiNeg wide N it B hBN hphi hiter
 
+/-- the hypothesis `PhiNegSpec` is the conclusion of C07's `phiRecAlg_correct` (every consistent cache content, every cache state) -/
+theorem phiNegSpec_of_phiRecAlg (E : PhiEnv) (A : ℕ) (hE : Pc.PhiAlgProofs.EnvOK E A) (mac : ℕ) (hm : mac ≤ E.cache.maxA) :
+    PhiNegSpec (fun y b => (phiRecAlg E (b + 1) (-1) y b mac).1) A :=
+  Pc.Close.phiNegSpec_of_phiRecAlg E A hE mac hm
+
 /-- the driver's φ (`hlPhiOf`, the inner `phi<-1>` of its `phi_vector`) is `φ` -/
 theorem hlPhiOf_eq (n x a : ℕ) (ha : a ≤ Nat.primeCounting n) : hlPhiOf (NT.build n) x a = (Spec.phi x a : ℤ) :=
   Pc.Close.hlPhiOf_eq (NT.build n) (NT.build_valid n) (build_out n) x a ha
@@ -185,6 +191,7 @@ end Pc.C17Closed
 #print axioms Pc.C17Closed.realTablesRef_ok
 #print axioms Pc.C17Closed.genC18_spec
 #print axioms Pc.C17Closed.realTablesC18_ok
+#print axioms Pc.C17Closed.phiNegSpec_of_phiRecAlg
 #print axioms Pc.C17Closed.hlPhiOf_eq
 #print axioms Pc.C17Closed.hlEnv_s2_closed
 #print axioms Pc.C17Closed.hlEnv_d_closed
